@@ -11,7 +11,8 @@ import vlib
 KINDS = {
     "C14": ["CatalogueLostOnRestart", "DeletedStillListed", "CatalogueDiffers", "CatalogueMetadataDiffers", "CreateFailed",
             "DeleteFailed", "RestartFailed", "NodeDied", "ViewError"],
-    "C20": ["MembersLostOnRestart", "RemovedStillListed", "MemberMissing", "AddressWrong", "JoinFailed", "RestartFailed", "NodeDied"],
+    "C20": ["MembersLostOnRestart", "RemovedStillListed", "MemberMissing", "AddressWrong", "JoinFailed", "RestartFailed", "NodeDied",
+            "SearchUnavailable"],      # every node up, a search through some node fails: a peer hosting a partition is not reached
 }
 SCENARIOS = ["basic", "wiring", "snapshot", "leave", "lagging", "lagging-leave", "joinfail", "lagging-replicas", "joincrash", "rejoin"]
 
